@@ -1102,20 +1102,28 @@ def cases_f(tier):
     return out
 
 
-def _f_scn(S, pw, k, t_bulk, recycle):
-    dsn = S.design(2)
+def _f_scn(S, pw, k, t_bulk, recycle, types=None, ducts=1, length=None, ctol=0.002):
+    """tiny real core; types: type name per position ('fuel' is grouped, 'ctrl' is not);
+    ducts=2: double duct with a flowing bypass gap (20 % of the assembly flow)"""
+    if ducts == 2:
+        dsn = S.design(2, ducts=2, bypass_fraction=G_BYPASS, byp_t=0.006)
+    else:
+        dsn = S.design(2)
     npin = S.n_pins(2)
+    types = types or ['fuel'] * len(pw)
+    length = length or F_LEN
     return {'setup': {'log_progress': 0, 'calc_energy_balance': False},
-            'core': {'inlet': T_IN, 'length': F_LEN, 'coolant': COOLANT, 'gap_model': 'no_flow',
+            'core': {'inlet': T_IN, 'length': length, 'coolant': COOLANT, 'gap_model': 'no_flow',
                      'pitch': round(max(dsn['duct_ftf']) + 0.004, 9)},
-            'types': {'fuel': dsn},
-            'assign': [['fuel', rg, ps, {'flowrate': 1.0}] for (rg, ps) in S.core_positions(2)],
-            'power': {'asm': {str(i + 1): {'cells': [0.0, F_LEN],
-                                           'pins': [[[pw[i] / npin / F_LEN] for _ in range(npin)]]}
+            'types': {nm: dict(dsn) for nm in sorted(set(types))},
+            'assign': [[t, rg, ps, {'flowrate': 1.0}]
+                       for t, (rg, ps) in zip(types, S.core_positions(2))],
+            'power': {'asm': {str(i + 1): {'cells': [0.0, length],
+                                           'pins': [[[pw[i] / npin / length] for _ in range(npin)]]}
                               for i in range(len(pw))}},
             'orificing': {'assemblies_to_group': ['fuel'], 'n_groups': k,
                           'value_to_optimize': 'peak coolant temp', 'bulk_coolant_temp': t_bulk,
-                          'iteration_limit': 3, 'convergence_tol': 0.002,
+                          'iteration_limit': 3, 'convergence_tol': ctol,
                           'recycle_results': bool(recycle)}}
 
 
@@ -1282,6 +1290,191 @@ def run_twice(c):
 
 
 # ----------------------------------------------------------------------
+# Part G: hand-over of the distributed flows to the real DASSH iteration and
+# collection of its results, with assembly types that are NOT grouped sitting
+# in front of / between the grouped ones and with double-ducted grouped
+# assemblies (flowing bypass gap)
+G_BYPASS = 0.2
+G_LEN = 0.1
+G_LAYOUTS = {'all-fuel': ['fuel'] * 7,
+             'ctrl-last': ['fuel'] * 6 + ['ctrl'],
+             'ctrl-centre': ['ctrl'] + ['fuel'] * 6,
+             'interleaved': ['ctrl', 'fuel', 'ctrl', 'fuel', 'fuel', 'ctrl', 'fuel']}
+G_TOL = 1e-12    # a flow that is handed over / read back is copied, not recomputed
+
+
+def cases_g(tier):
+    out = []
+    for fam in ('handover', 'iterate'):
+        for lay in ('all-fuel', 'ctrl-last', 'ctrl-centre', 'interleaved'):
+            for ducts in (1, 2):
+                for k in (2, 3):
+                    if tier == 'quick':
+                        # double duct: once per family; whole optimisations: 2 groups
+                        if ducts == 2 and not (lay == 'all-fuel' and k == 2):
+                            continue
+                        if fam == 'iterate' and (k == 3 or lay == 'ctrl-last'):
+                            continue
+                    out.append({'family': fam, 'layout': lay, 'ducts': ducts, 'n_groups': k,
+                                'powers': 'A', 'n': 7})
+    return out
+
+
+def run_iter(c):
+    import contextlib
+    import io
+    import os
+    import dassh
+    import dassh.__main__  # noqa: F401
+    from .. import scenario as S
+    r = new_result()
+    V = r['violations']
+    pw = F_POWERS[c['powers']]
+    types = G_LAYOUTS[c['layout']]
+    gid = [i for i, t in enumerate(types) if t == 'fuel']       # ids of the grouped assemblies
+    pg = [pw[i] for i in gid]
+    k = c['n_groups']
+    cp = _cp()
+    m_req = sum(pg) / (cp * (T_BULK - T_IN))
+    r['traces'] = 1
+    r['nontrivial'] = True
+    scn = _f_scn(S, pw, k, T_BULK, False, types=types, ducts=c['ducts'],
+                 length=G_LEN if c['ducts'] == 2 else F_LEN, ctol=1e-6)
+
+    def bad(kind, what, obs=None, exp=None, tol=None, site=None):
+        V.append(violation(kind, c, what, obs, exp, tol, site=site))
+
+    def given(path):
+        """flows and outlet temperatures the saved Reactor of an iteration ran with"""
+        rx = dassh.reactor.load(os.path.join(path, 'dassh_reactor.pkl'))
+        return ({a.id: float(a.flow_rate) for a in rx.assemblies},
+                {a.id: float(a.avg_coolant_temp) for a in rx.assemblies},
+                {a.id: a.name for a in rx.assemblies})
+
+    def close(a, b, tol):
+        return abs(a - b) <= tol * max(abs(a), abs(b))
+
+    try:
+        with contextlib.redirect_stdout(io.StringIO()), S.Built(scn) as b:
+            o = dassh.Orificing(b.inp())
+            if c['family'] == 'handover':
+                o.group_by_power()
+                r['transitions'] += 1
+                gd = np.asarray(o.group_data, dtype=float)
+                if [int(x) for x in gd[:, 0]] != gid:
+                    bad('assembly-lost', 'grouped assemblies are not the assemblies of the grouped type',
+                        gd[:, 0].tolist(), gid, site='orificing.py:_get_power')
+                    r['outcome'] = 'malformed'
+                    return r
+                f = _f_flows(o, pg, T_BULK, cp)
+                # (1) the input that _setup_input_orifice produces
+                inp2 = o._setup_input_orifice(f)
+                byp = inp2.data['Assignment']['ByPosition']
+                for row, i in enumerate(gid):
+                    bc = byp[i][2]
+                    if not (isinstance(bc, dict) and list(bc.keys()) == ['flowrate']
+                            and close(float(bc['flowrate']), float(f[row]), G_TOL)):
+                        bad('flow-handover', 'boundary condition written for grouped assembly %d '
+                            '(position %d) is not the flow of its group' % (i, i),
+                            {kk: float(v) for kk, v in bc.items()} if isinstance(bc, dict) else repr(bc),
+                            float(f[row]), G_TOL, site='orificing.py:_setup_input_orifice')
+                        break
+                r['transitions'] += 1
+                # (2) the Reactor of the real iteration run and the table collected from it
+                tab = np.asarray(o.run_dassh_orifice(1, f), dtype=float)
+                r['transitions'] += 1
+                r['states'] += 1
+                mg, _, nm = given(os.path.join(b.dir, '_iter1'))
+                for row, i in enumerate(gid):
+                    if nm.get(i) != 'fuel' or not close(mg[i], float(f[row]), G_TOL):
+                        bad('flow-handover', 'assembly %d ran the iteration with %.9g kg/s, its group '
+                            'was given %.9g kg/s' % (i, mg.get(i, float('nan')), f[row]),
+                            mg.get(i), float(f[row]), G_TOL,
+                            site='orificing.py:_setup_input_orifice')
+                        break
+                if tab.shape[0] != len(gid) or [int(x) for x in tab[:, 1]] != gid:
+                    bad('collected-flow', 'collected table is not one row per grouped assembly',
+                        tab[:, 1].tolist(), gid, site='orificing.py:_read_dassh_results')
+                else:
+                    for row, i in enumerate(gid):
+                        if not close(float(tab[row, 3]), mg[i], G_TOL):
+                            bad('collected-flow', 'flow collected for assembly %d (%.9g kg/s) is not the '
+                                'flow it ran with (%.9g kg/s)' % (i, tab[row, 3], mg[i]),
+                                float(tab[row, 3]), mg[i], G_TOL,
+                                site='orificing.py:_read_dassh_results')
+                            break
+            else:
+                o.optimize()
+                r['transitions'] += 1
+                # final report
+                rows = []
+                with open(os.path.join(b.dir, 'orificing_result_assembly.csv')) as fh:
+                    for line in fh.read().splitlines():
+                        ll = line.split(',')
+                        rows.append((int(ll[0]), int(ll[4]), float(ll[5])))
+                if [x[0] for x in rows] != gid:
+                    bad('assembly-lost', 'result file is not one row per grouped assembly',
+                        [x[0] for x in rows], gid, site='orificing.py:write_results')
+                    r['outcome'] = 'malformed'
+                    return r
+                groups = [x[1] for x in rows]
+                for (kind, what, obs, exp) in partition_problems(groups, k):
+                    bad(kind, what, obs, exp, site='orificing.py:_group')
+                its = sorted(int(x[5:]) for x in os.listdir(b.dir) if x.startswith('_iter'))
+                heat_prev = None
+                for it in its:
+                    d_it = os.path.join(b.dir, '_iter%d' % it)
+                    mg, tg, nm = given(d_it)
+                    r['states'] += 1
+                    flows = [mg[i] for i in gid]
+                    # equal flow inside a group, in the run itself
+                    for g in sorted(set(groups)):
+                        mem = [flows[j] for j in range(len(gid)) if groups[j] == g]
+                        if max(mem) - min(mem) > TOL_EQ * max(mem):
+                            bad('unequal-flow-in-group', 'iteration %d ran members of group %d with '
+                                'different flows' % (it, g), mem, None, TOL_EQ,
+                                site='orificing.py:_setup_input_orifice')
+                    # required total: iteration 1 Q/(cp dT) of the harness's power; afterwards the
+                    # heat the grouped assemblies carried out of the previous sweep (harness
+                    # evaluation of the saved Reactor) / (cp dT): that sweep is the only knowledge of
+                    # the bulk outlet temperature the optimiser can have
+                    need = m_req if heat_prev is None else heat_prev / (cp * (T_BULK - T_IN))
+                    tol = TOL_SUM if heat_prev is None else 1e-9
+                    if abs(sum(flows) - need) > tol * need:
+                        bad('flow-not-conserved', 'iteration %d: the flows given to the grouped '
+                            'assemblies do not sum to the total required by the bulk outlet temperature '
+                            'target' % it, sum(flows), need, tol * need,
+                            site='orificing.py:distribute')
+                    heat_prev = sum(mg[i] * cp * (tg[i] - T_IN) for i in gid)
+                    # what was collected from the run is what the assemblies ran with
+                    tab = np.atleast_2d(np.loadtxt(os.path.join(d_it, 'data.csv'), delimiter=','))
+                    if tab.shape[0] != len(gid) or any(
+                            not close(float(tab[j, 3]), flows[j], G_TOL) for j in range(len(gid))):
+                        bad('collected-flow', 'iteration %d: flows in data.csv are not the flows the '
+                            'assemblies ran with' % it, tab[:, 3].tolist(), flows, G_TOL,
+                            site='orificing.py:_read_dassh_results')
+                    last = flows
+                if any(not close(rows[j][2], last[j], G_TOL) for j in range(len(gid))):
+                    bad('collected-flow', 'orificing_result_assembly.csv reports flows that are not the '
+                        'flows of the last iteration', [x[2] for x in rows], last, G_TOL,
+                        site='orificing.py:_read_dassh_results')
+                r['info'] = {'iterations': its, 'groups': groups, 'flows': last}
+                r['extra'] = {'real_iterations': len(its)}
+    except SystemExit:
+        r['outcome'] = 'exit'
+        return r
+    # one report per kind
+    seen, uniq = set(), []
+    for v in V:
+        if v['kind'] not in seen:
+            seen.add(v['kind'])
+            uniq.append(v)
+    r['violations'] = uniq
+    r['outcome'] = uniq[0]['kind'] if uniq else 'ok'
+    return r
+
+
+# ----------------------------------------------------------------------
 def main(run):
     run.rule = ('A: every multiset (size 1..6 quick / 1..7 thorough, repetition allowed) over the '
                 'values {1,1.02,1.1,1.5,2,4} x requested groups 1..N x (cutoff,delta) pairs; '
@@ -1397,6 +1590,18 @@ def main(run):
             'vacuous-alphabet', {'part': 'two-requests'},
             'two-request histories did not reach both a fresh rerun and a documented reuse',
             out_f, None), part='two-requests'))
+    cg = cases_g(run.tier)
+    rg = run.explore('iterations', cg, run_iter, budget_s=300, chunksize=1)
+    run.notes['iteration_cases'] = len(cg)
+    ok_g = [c for c, r in zip(cg, rg) if r['outcome'] == 'ok']
+    if not any(c['layout'] in ('ctrl-centre', 'interleaved') for c in ok_g) or \
+            not any(c['ducts'] == 2 and c['family'] == 'iterate' for c in ok_g) or \
+            run.extra.get('real_iterations', 0) < 2 * sum(1 for c in ok_g if c['family'] == 'iterate'):
+        run.violations.append(dict(violation(
+            'vacuous-alphabet', {'part': 'iterations'},
+            'iteration alphabet did not complete a case with ungrouped assemblies in front, a '
+            'double-duct optimisation, or fewer than two iterations per optimisation',
+            [[c['layout'], c['ducts'], c['family']] for c in ok_g], None), part='iterations'))
 
 
 def replay(body):
@@ -1406,7 +1611,8 @@ def replay(body):
               'check, rerun the tier to re-evaluate)' % (body.get('what'), body.get('observed')))
         return 1
     fn = {'grouping': run_group, 'distribution': run_distribute, 'histories': run_history,
-          'real-input': run_real, 'real-linear': run_linear, 'two-requests': run_twice}.get(part)
+          'real-input': run_real, 'real-linear': run_linear, 'two-requests': run_twice,
+          'iterations': run_iter}.get(part)
     if fn is None:
         print('no replay for part', part)
         return 1
